@@ -673,6 +673,166 @@ static int t_mpz_ui (const char *f, int budget)           /* add_ui sub_ui ui_su
   printf ("PASS %d\n", budget); return 0;
 }
 
+
+/* ---- mpf functions that are exact on the stored value: neg abs set (into ANY destination precision), integer_p, get_ui/si, fits, cmp_ui, set_ui/si */
+static void show_f (const char *nm, const mpf_t f) { printf (" %s(size=%d,prec=%d,exp=%ld)", nm, f->_mp_size, f->_mp_prec, (long) f->_mp_exp); show ("", f->_mp_d, abs (f->_mp_size)); }
+static int mpf_wf (const mpf_t f) { int n = abs (f->_mp_size); return n <= f->_mp_prec + 1 && (n == 0 ? f->_mp_exp == 0 : f->_mp_d[n - 1] != 0); }
+static int t_mpf_exact (const char *f, int budget)
+{
+  for (int it = 0; it < budget / 4; it++)
+    {
+      mpf_t u, r; mk_mpf (u, 5); mpf_init2 (r, 64 * (1 + rnd64 () % 6));        /* destination precision smaller, equal or larger */
+      if (it % 6 == 0 && u->_mp_size) u->_mp_exp = abs (u->_mp_size) + (long) (rnd64 () % 3) - 1;
+      int un = abs (u->_mp_size), ok = 1; mpf_t u0; mpf_init2 (u0, 64 * 8); mpf_set (u0, u);
+      mpz_t a, b; mpz_init (a); mpz_init (b);
+      if (!strcmp (f, "mpf_neg") || !strcmp (f, "mpf_abs") || !strcmp (f, "mpf_set"))
+        {
+          int al = (rnd64 () % 4 == 0); mpf_ptr pr = al ? u : r;
+          if (!strcmp (f, "mpf_neg")) mpf_neg (pr, u); else if (!strcmp (f, "mpf_abs")) mpf_abs (pr, u); else mpf_set (pr, u);
+          /* want: the top min(un, prec+1) limbs of u0, same exponent, sign per function */
+          int keep = un < pr->_mp_prec + 1 ? un : pr->_mp_prec + 1, rn = abs (pr->_mp_size);
+          int wneg = !strcmp (f, "mpf_neg") ? (u0->_mp_size > 0) : !strcmp (f, "mpf_abs") ? 0 : (u0->_mp_size < 0);
+          ok = rn == keep && pr->_mp_exp == u0->_mp_exp && (rn == 0 || (pr->_mp_size < 0) == wneg) && memcmp (pr->_mp_d, u0->_mp_d + (un - keep), keep * sizeof (L)) == 0 && mpf_wf (pr);
+          if (!ok) { failed (f); printf (" alias=%d", al); show_f ("u", u0); show_f ("got", pr); printf ("\n"); return 1; }
+        }
+      else if (!strcmp (f, "mpf_integer_p"))
+        {
+          long e = u->_mp_exp; int want = 1;                                   /* limbs below the radix point: indices < un - exp */
+          if (un && e <= 0) want = 0; else for (int i = 0; i < un - e && i < un; i++) if (u->_mp_d[i]) want = 0;
+          int got = mpf_integer_p (u) != 0;
+          if (got != want) { failed (f); show_f ("u", u); printf (" got=%d want=%d\n", got, want); return 1; }
+        }
+      else
+        {
+          /* integer part, truncated: t = trunc(u) as an mpz via exact scaling */
+          mpf_to_scaled (a, u, 8); mpz_tdiv_q_2exp (b, a, 64 * 8);            /* b = trunc(u) */
+          if (!strcmp (f, "mpf_get_ui")) { unsigned long want = mpz_size (b) ? mpz_getlimbn (b, 0) : 0, got = mpf_get_ui (u); ok = got == want; if (!ok) { failed (f); show_f ("u", u); printf (" got=%#lx want=%#lx\n", got, want); return 1; } }
+          else if (!strcmp (f, "mpf_get_si")) { long got = mpf_get_si (u); if (mpz_fits_slong_p (b) && got != mpz_get_si (b)) { failed (f); show_f ("u", u); printf (" got=%ld want=%ld\n", got, mpz_get_si (b)); return 1; } }
+          else if (!strncmp (f, "mpf_fits_", 9))
+            {
+              int got, want;
+              if (!strcmp (f, "mpf_fits_ulong_p")) { got = mpf_fits_ulong_p (u); want = mpz_sgn (b) >= 0 && mpz_fits_ulong_p (b); if (mpz_sgn (b) == 0) want = 1; }
+              else if (!strcmp (f, "mpf_fits_slong_p")) { got = mpf_fits_slong_p (u); want = mpz_fits_slong_p (b); }
+              else if (!strcmp (f, "mpf_fits_uint_p")) { got = mpf_fits_uint_p (u); want = mpz_fits_uint_p (b); }
+              else if (!strcmp (f, "mpf_fits_sint_p")) { got = mpf_fits_sint_p (u); want = mpz_fits_sint_p (b); }
+              else if (!strcmp (f, "mpf_fits_ushort_p")) { got = mpf_fits_ushort_p (u); want = mpz_fits_ushort_p (b); }
+              else { got = mpf_fits_sshort_p (u); want = mpz_fits_sshort_p (b); }
+              if ((got != 0) != (want != 0)) { failed (f); show_f ("u", u); printf (" got=%d want=%d\n", got, want); return 1; }
+            }
+          else if (!strcmp (f, "mpf_cmp_ui"))
+            {
+              unsigned long v = pat (); if (it % 3 == 0 && un == 1 && u->_mp_exp == 1) v = u->_mp_d[0] + (rnd64 () % 3) - 1;
+              mpz_set_ui (b, v); mpz_mul_2exp (b, b, 64 * 8);
+              int want = SG (mpz_cmp (a, b)), got = SG (mpf_cmp_ui (u, v));
+              if (got != want) { failed (f); show_f ("u", u); printf (" v=%#lx got=%d want=%d\n", v, got, want); return 1; }
+            }
+          else if (!strcmp (f, "mpf_set_ui") || !strcmp (f, "mpf_set_si"))
+            {
+              unsigned long v = pat (); int si = !strcmp (f, "mpf_set_si");
+              if (si) mpf_set_si (r, (long) v); else mpf_set_ui (r, v);
+              unsigned long mag = si && (long) v < 0 ? -v : v;
+              ok = mpf_wf (r) && (v == 0 ? r->_mp_size == 0 : (abs (r->_mp_size) == 1 && r->_mp_d[0] == mag && r->_mp_exp == 1 && (r->_mp_size < 0) == (si && (long) v < 0)));
+              if (!ok) { failed (f); printf (" v=%#lx", v); show_f ("got", r); printf ("\n"); return 1; }
+            }
+          else { printf ("no native test for %s\n", f); return 3; }
+        }
+      mpf_clear (u); mpf_clear (r); mpf_clear (u0); mpz_clear (a); mpz_clear (b);
+    }
+  printf ("PASS %d\n", budget / 4); return 0;
+}
+/* ---- C07: gcd_ui / invert / lcm against mpz_gcd, mpz_gcdext and the defining congruence */
+static int t_mpz_gcdfam (const char *f, int budget)
+{
+  for (int it = 0; it < budget / 8; it++)
+    {
+      mpz_t w, u, v, g, t; mk_mpz (w, 3); mk_mpz (u, 3); mk_mpz (v, 3); mpz_init (g); mpz_init (t);
+      if (!strcmp (f, "mpz_gcd_ui"))
+        {
+          unsigned long d = it % 4 == 0 ? 0 : it % 4 == 1 ? 1 + rnd64 () % 20 : pat ();
+          int al = rnd64 () % 3; mpz_t u0; mpz_init_set (u0, u); mpz_ptr pw = al == 2 ? NULL : w, pu = u; if (al == 1) { mpz_set (w, u); pu = w; }
+          unsigned long ret = mpz_gcd_ui (pw, pu, d);
+          mpz_set_ui (t, d); mpz_gcd (g, u0, t);
+          int ok = mpz_fits_ulong_p (g) ? ret == mpz_get_ui (g) : ret == 0;
+          if (pw) ok = ok && mpz_cmp (pw, g) == 0 && abs (pw->_mp_size) <= pw->_mp_alloc;
+          if (al != 1) ok = ok && mpz_cmp (u, u0) == 0;
+          if (!ok) { failed (f); printf (" alias=%d v=%#lx ret=%#lx", al, d, ret); show_z ("u", u0); if (pw) show_z ("w", pw); show_z ("want", g); printf ("\n"); return 1; }
+          mpz_clear (u0);
+        }
+      else if (!strcmp (f, "mpz_invert"))
+        {
+          if (mpz_sgn (v) == 0) mpz_set_si (v, it % 2 ? 7 : -7);
+          if (it % 3 == 0) { mpz_set_si (v, (long) (2 + rnd64 () % 30) * (it % 2 ? 1 : -1)); mpz_set_si (u, (long) (rnd64 () % 60) - 30); }
+          int al = rnd64 () % 3; mpz_t u0, v0; mpz_init_set (u0, u); mpz_init_set (v0, v); mpz_ptr pu = u, pv = v;
+          if (al == 1) { mpz_set (w, u); pu = w; } else if (al == 2) { mpz_set (w, v); pv = w; }
+          int ex = mpz_invert (w, pu, pv) != 0;
+          mpz_gcd (g, u0, v0); mpz_abs (t, v0);
+          int want = mpz_cmp_ui (g, 1) == 0 && mpz_cmp_ui (t, 1) != 0 && mpz_sgn (u0) != 0, ok = ex == want;
+          if (mpz_cmp_ui (t, 1) == 0) ok = 1;                                  /* |n| == 1: the manual leaves the answer open */
+          if (ok && ex && mpz_cmp_ui (t, 1) != 0) { mpz_t m; mpz_init (m); mpz_mul (m, w, u0); mpz_sub_ui (m, m, 1); ok = mpz_divisible_p (m, v0) && mpz_sgn (w) >= 0 && mpz_cmp (w, t) < 0; mpz_clear (m); }
+          if (!ok) { failed (f); printf (" alias=%d exists=%d", al, ex); show_z ("x", u0); show_z ("n", v0); show_z ("got", w); printf ("\n"); return 1; }
+          mpz_clear (u0); mpz_clear (v0);
+        }
+      else if (!strcmp (f, "mpz_lcm"))
+        {
+          int al = rnd64 () % 4; mpz_t u0, v0; mpz_init_set (u0, u); mpz_init_set (v0, v); mpz_ptr pu = u, pv = v;
+          if (al == 1) { mpz_set (w, u); pu = w; } else if (al == 2) { mpz_set (w, v); pv = w; } else if (al == 3) { pv = pu; mpz_set (v0, u0); }
+          mpz_lcm (w, pu, pv);
+          if (mpz_sgn (u0) == 0 || mpz_sgn (v0) == 0) mpz_set_ui (t, 0); else { mpz_gcd (g, u0, v0); mpz_divexact (t, u0, g); mpz_mul (t, t, v0); mpz_abs (t, t); }
+          if (mpz_cmp (w, t) != 0) { failed (f); printf (" alias=%d", al); show_z ("u", u0); show_z ("v", v0); show_z ("got", w); show_z ("want", t); printf ("\n"); return 1; }
+          mpz_clear (u0); mpz_clear (v0);
+        }
+      else { printf ("no native test for %s\n", f); return 3; }
+      mpz_clear (w); mpz_clear (u); mpz_clear (v); mpz_clear (g); mpz_clear (t);
+    }
+  printf ("PASS %d\n", budget / 8); return 0;
+}
+/* ---- C19: ranges for every generator, a destination holding a stale wider value, re-seeding a USED state is reproducible */
+static void mk_state (gmp_randstate_t st, int kind)
+{
+  if (kind == 0) gmp_randinit_mt (st);
+  else if (kind == 1) gmp_randinit_lc_2exp_size (st, 16 + 16 * (rnd64 () % 8));
+  else { mpz_t a; mpz_init_set_ui (a, 0x5851F42D4C957F2DUL | 5); gmp_randinit_lc_2exp (st, a, 1 + rnd64 () % 100, 8 + rnd64 () % 250); mpz_clear (a); }
+}
+static int t_random (const char *f, int budget)
+{
+  for (int it = 0; it < budget / 40; it++)
+    {
+      int kind = it % 3; gmp_randstate_t st; mk_state (st, kind); gmp_randseed_ui (st, rnd64 ());
+      if (!strcmp (f, "mpz_urandomb"))
+        {
+          mpz_t x; mk_mpz (x, 8); unsigned long nb = (it % 2) ? 64 * (rnd64 () % 5) : rnd64 () % 330;        /* stale wider content, multiples of the limb size */
+          mpz_urandomb (x, st, nb);
+          if (mpz_sgn (x) < 0 || mpz_sizeinbase (x, 2) > nb + (mpz_sgn (x) == 0) || (x->_mp_size && x->_mp_d[x->_mp_size - 1] == 0))
+            { failed (f); printf (" generator=%d nbits=%lu", kind, nb); show_z ("got", x); printf ("\n"); return 1; }
+          mpz_clear (x);
+        }
+      else if (!strcmp (f, "gmp_urandomb_ui")) { unsigned long nb = rnd64 () % 70, r = gmp_urandomb_ui (st, nb); if (nb < 64 && (r >> nb)) { failed (f); printf (" generator=%d bits=%lu got=%#lx\n", kind, nb, r); return 1; } }
+      else if (!strcmp (f, "gmp_urandomm_ui")) { unsigned long n = it % 4 == 0 ? 1 + rnd64 () % 3 : it % 4 == 1 ? (1UL << (rnd64 () % 64)) : pat (); if (!n) n = 1; unsigned long r = gmp_urandomm_ui (st, n); if (r >= n) { failed (f); printf (" generator=%d n=%#lx got=%#lx\n", kind, n, r); return 1; } }
+      else if (!strcmp (f, "mpn_urandomm") || !strcmp (f, "mpz_urandomm"))
+        {
+          mpz_t x, n; mk_mpz (x, 6); mk_mpz (n, 4); mpz_abs (n, n); if (mpz_sgn (n) == 0) mpz_set_ui (n, 1 + it % 5); if (it % 5 == 0) { mpz_set_ui (n, 1); mpz_mul_2exp (n, n, rnd64 () % 200); }
+          int al = it % 7 == 0; mpz_t n0; mpz_init_set (n0, n);
+          if (al) mpz_urandomm (n, st, n); else mpz_urandomm (x, st, n);
+          mpz_ptr r = al ? n : x;
+          if (mpz_sgn (r) < 0 || mpz_cmp (r, n0) >= 0) { failed (f); printf (" generator=%d alias=%d", kind, al); show_z ("n", n0); show_z ("got", r); printf ("\n"); return 1; }
+          mpz_clear (x); mpz_clear (n); mpz_clear (n0);
+        }
+      else if (!strcmp (f, "randseed_lc") || !strcmp (f, "randseed"))
+        {
+          /* two states of the same generator, different histories, same seed -> same sequence */
+          gmp_randstate_t s2; gmp_randinit_set (s2, st); mpz_t sd, a, b; mk_mpz (sd, 3); mpz_abs (sd, sd); if (it % 3 == 0) mpz_set_ui (sd, rnd64 () % 4); mpz_init (a); mpz_init (b);
+          for (int k = 0; k < 1 + (int) (rnd64 () % 4); k++) mpz_urandomb (a, st, 300);      /* use one of them */
+          gmp_randseed (st, sd); gmp_randseed (s2, sd);
+          for (int k = 0; k < 3; k++)
+            { mpz_urandomb (a, st, 200); mpz_urandomb (b, s2, 200); if (mpz_cmp (a, b) != 0) { failed (f); printf (" generator=%d draw=%d", kind, k); show_z ("seed", sd); show_z ("used_state", a); show_z ("fresh_state", b); printf ("\n"); return 1; } }
+          gmp_randclear (s2); mpz_clear (sd); mpz_clear (a); mpz_clear (b);
+        }
+      else { printf ("no native test for %s\n", f); return 3; }
+      gmp_randclear (st);
+    }
+  printf ("PASS %d\n", budget / 40); return 0;
+}
+
 int main (int argc, char **argv)
 {
   if (argc < 4) { fprintf (stderr, "usage: native <function> <seed> <budget>\n"); return 2; }
@@ -696,6 +856,9 @@ int main (int argc, char **argv)
   if (!strncmp (f, "mpz_cmp", 7) || !strncmp (f, "mpz_fits", 8) || !strncmp (f, "mpz_get", 7) || !strncmp (f, "mpz_set_", 8)) return t_mpz_c11 (f, budget);
   if (!strcmp (f, "raw")) { int r1 = t_raw (f, budget); return r1 ? r1 : t_raw_leak (budget); }
   if (!strncmp (f, "mpq_", 4)) return t_mpq (f, budget);
+  if (!strcmp (f, "mpf_neg") || !strcmp (f, "mpf_abs") || !strcmp (f, "mpf_set") || !strcmp (f, "mpf_integer_p") || !strcmp (f, "mpf_get_ui") || !strcmp (f, "mpf_get_si") || !strncmp (f, "mpf_fits_", 9) || !strcmp (f, "mpf_cmp_ui") || !strcmp (f, "mpf_set_ui") || !strcmp (f, "mpf_set_si")) return t_mpf_exact (f, budget);
+  if (!strcmp (f, "mpz_gcd_ui") || !strcmp (f, "mpz_invert") || !strcmp (f, "mpz_lcm")) return t_mpz_gcdfam (f, budget);
+  if (!strcmp (f, "mpz_urandomb") || !strcmp (f, "gmp_urandomb_ui") || !strcmp (f, "gmp_urandomm_ui") || !strcmp (f, "mpn_urandomm") || !strcmp (f, "mpz_urandomm") || !strcmp (f, "randseed_lc")) return t_random (f, budget);
   if (!strcmp (f, "mpf_cmp")) return t_mpf_cmp (f, budget);
   printf ("no native test for %s\n", f);
   return 3;
